@@ -10,9 +10,11 @@ IsEvent(op) == l <= Len(Rec) /\ Rec[l].op = op /\ l' = l + 1
 
 \* C20: one instance of a rejection rule, compiled on its own
 Compile == /\ IsEvent("compile")
-           /\ LET e == Rec[l]  i == Inst(e.rule, e.derive, e.kw, e.shape, e.pos, e.split) IN
-              /\ Require(i \in Instances, l, "compile: not an instance the specification enumerates", i)
-              /\ Require(Rejected(e), l, "rejection",
+           /\ LET e == Rec[l]  i == InstC(Inst(e.rule, e.derive, e.kw, e.shape, e.pos, e.split), e.ctx) IN
+              /\ Require(i \in Instances \cup Controls, l, "compile: not an instance the specification enumerates", i)
+              \* e.ctl: the control of this derive and context (same skeleton, no offence) compiled.  Where it did not, the
+              \* skeleton itself is broken - some other property's failure - and the instance cannot be judged here.
+              /\ Require(InDomain(i) \/ ~e.ctl \/ Rejected(e), l, "rejection",
                          [instance |-> i, compiled |-> e.ok, macro_panicked |-> e.panicked, error_lines |-> e.spans, item_lines |-> e.item,
                           messages |-> e.msgs])
 \* C19: one definition x derive set compiled under one build configuration
